@@ -1,5 +1,188 @@
-import RV.Model.Janus
+import RV.Proofs.Janus
+import RV.Proofs.Reversal
 import RV.Gen.C10Janus
-namespace RV.Janus
-theorem c10_tables_counts : RV.Gen.C10.nTables = 5 := by decide
-end RV.Janus
+/-
+  C10 — JANUS is bit-wise time reversible; symmetric schemes reverse to rounding error.
+
+  JANUS.  Statements are about RV/Model/Janus.lean (the definitions `drv_c10` runs on IEEE
+  doubles and two's-complement int64 against integrator_janus.c, bit for bit):
+  an abstract `double` type `F` with the operations the C code uses, the IEEE-754
+  sign-symmetry laws as the hypothesis `L : JLaws F` (not axioms), an arbitrary force
+  `cfg.acc` of the grid positions, arbitrary scales, every scheme whose `gg` is a
+  palindrome, every integer state and every number of steps.  A conversion outside the
+  int64 range is `none`; the theorems say: if the forward leg is defined, so is the
+  backward leg, and it returns the initial integer state exactly.
+
+  Tables.  The palindrome hypothesis is discharged for every table of
+  RV/Gen/C10Janus.lean (regenerated from the C source on every run), with the
+  index function `gg` tied to the compiled C function (and to its text where parseable).
+
+  Symmetric schemes.  LEAPFROG and SEI (RV/Model/Reversal.lean, operation order of the C
+  source) and abstract palindromic splittings satisfy `step(-dt) ∘ step(dt) = id` in exact
+  arithmetic (any field), for an arbitrary position-dependent force.
+-/
+set_option linter.unusedVariables false
+set_option linter.unnecessarySeqFocus false
+namespace RV.C10
+open RV RV.Janus RV.Reversal JFloat
+
+/-! ### JANUS -/
+
+/-- n steps with `dt` followed by n steps with `-dt` return every grid coordinate exactly;
+    ∀ scheme with palindromic `gg`, ∀ force, ∀ scales, ∀ state, ∀ n -/
+theorem c10_janus_steps_reverse {F : Type} [JFloat F] (L : JLaws F) (cfg : Cfg F) (s : Scheme F)
+    (hp : Palin s) (dt : F) (n : Nat) (st st' : List PInt)
+    (h : steps cfg s dt n st = some st') : steps cfg s (neg dt) n st' = some st :=
+  steps_reverse L cfg s hp dt n st st' h
+
+/-- the same starting with the negative step (needs `-(-a) = a`) -/
+theorem c10_janus_steps_reverse_back {F : Type} [JFloat F] (L : JLaws F)
+    (hnn : ∀ a : F, neg (neg a) = a) (cfg : Cfg F) (s : Scheme F)
+    (hp : Palin s) (dt : F) (n : Nat) (st st' : List PInt)
+    (h : steps cfg s (neg dt) n st = some st') : steps cfg s dt n st' = some st := by
+  have := steps_reverse L cfg s hp (neg dt) n st st' h
+  rwa [hnn] at this
+
+/-- hence the doubles `to_double` derives from the grid (what the user sees in
+    `r->particles`) return to the same values -/
+theorem c10_janus_doubles_reverse {F : Type} [JFloat F] (L : JLaws F) (cfg : Cfg F) (s : Scheme F)
+    (hp : Palin s) (dt : F) (n : Nat) (st st' : List PInt)
+    (h : steps cfg s dt n st = some st') :
+    (steps cfg s (neg dt) n st').map (toDouble cfg.scalePos cfg.scaleVel) =
+      some (toDouble cfg.scalePos cfg.scaleVel st) := by
+  rw [steps_reverse L cfg s hp dt n st st' h]; rfl
+
+/-- one step: the elementary-map list of `-dt` is the inverted list of `dt` in reverse order -/
+theorem c10_janus_ops_reverse {F : Type} [JFloat F] (L : JLaws F) (s : Scheme F) (hp : Palin s)
+    (dt : F) (ops : List (Op F)) (h : stepOps s dt = some ops) :
+    stepOps s (neg dt) = some ((ops.map Op.inv).reverse) := by
+  rw [stepOps_neg L, h, Option.map_some, ← List.map_reverse, stepOps_palindrome L s hp dt ops h]
+
+/-- every elementary map is undone exactly by the same map with the negated coefficient -/
+theorem c10_janus_op_inverse {F : Type} [JFloat F] (L : JLaws F) (cfg : Cfg F) (op : Op F)
+    (st st' : List PInt) (h : op.apply cfg st = some st') : op.inv.apply cfg st' = some st :=
+  op_inv L cfg op st st' h
+
+/-! ### the tables of integrator_janus.c (finite facts, re-decided on every run) -/
+
+/-- the hand-written `gg` of the model, run on the compiled constants, returns on every stage of
+    every table exactly what the compiled C function `gg` returns -/
+theorem c10_gg_model_is_compiled :
+    ∀ t ∈ RV.Gen.C10.tables,
+      (List.range t.stages).map (gg (schemeOf id t.order t.stages t.gammaBits)) = t.ggVals.map some := by
+  decide +kernel
+
+/-- where the text of `gg` has the shape the translator understands, its index expressions
+    (`unsigned int` arithmetic) agree with the model's `ggIndex` on every stage of every table -/
+theorem c10_gg_text_is_model (f : UInt32 → UInt32 → UInt32) (hf : RV.Gen.C10.ggIdx = some f) :
+    ∀ t ∈ RV.Gen.C10.tables, ∀ i, i < t.stages →
+      (f t.stages.toUInt32 i.toUInt32).toNat = ggIndex t.stages i := by
+  unfold RV.Gen.C10.ggIdx at hf
+  first
+    | (injection hf with hf; subst hf; decide +kernel)
+    | cases hf
+
+/-- what the compiled `gg` returns is a palindrome over the stages of every table; so are the exact
+    rationals of the decimal text read through the model's `gg`; nothing reads outside `gamma[]` -/
+theorem c10_tables_value_palindrome :
+    ∀ t ∈ RV.Gen.C10.tables, 1 ≤ t.stages ∧ t.gammaQ.length = RV.Gen.C10.gammaLen ∧
+      t.gammaBits.length = RV.Gen.C10.gammaLen ∧ t.ggVals.length = t.stages ∧
+      t.ggVals.reverse = t.ggVals ∧
+      ((List.range t.stages).map (gg (schemeOf id t.order t.stages t.gammaQ))).reverse =
+        (List.range t.stages).map (gg (schemeOf id t.order t.stages t.gammaQ)) ∧
+      (∀ i, i < t.stages → (gg (schemeOf id t.order t.stages t.gammaQ) i).isSome) := by
+  decide +kernel
+
+/-- the palindrome hypothesis of the JANUS theorems holds for every table, whatever type `F` the
+    constants are read into -/
+theorem c10_tables_palin {F : Type} [JFloat F] :
+    ∀ t ∈ RV.Gen.C10.tables,
+      (∀ f : Int × Nat → F, Palin (schemeOf f t.order t.stages t.gammaQ)) ∧
+      (∀ f : UInt64 → F, Palin (schemeOf f t.order t.stages t.gammaBits)) := by
+  have key : ∀ t ∈ RV.Gen.C10.tables,
+      IndexPalin t.stages t.gammaQ.length ∧ IndexPalin t.stages t.gammaBits.length := by
+    decide +kernel
+  intro t ht
+  refine ⟨fun f => palin_of_index _ ?_, fun f => palin_of_index _ ?_⟩
+  · simp only [schemeOf, List.length_map]; exact (key t ht).1
+  · simp only [schemeOf, List.length_map]; exact (key t ht).2
+
+/-- JANUS reversal for every order the code supports: the scheme selected by
+    `switch (ri_janus->order)`, compiled constants read through any `f` -/
+theorem c10_janus_supported_orders_reverse {F : Type} [JFloat F] (L : JLaws F) (cfg : Cfg F)
+    (f : UInt64 → F) (t : RV.Gen.C10.Table) (ht : t ∈ RV.Gen.C10.tables) (dt : F) (n : Nat)
+    (st st' : List PInt)
+    (h : steps cfg (schemeOf f t.order t.stages t.gammaBits) dt n st = some st') :
+    steps cfg (schemeOf f t.order t.stages t.gammaBits) (neg dt) n st' = some st :=
+  steps_reverse L cfg _ ((c10_tables_palin t ht).2 f) dt n st st' h
+
+/-- extraction completeness: the supported orders 2,4,6,8,10 are all present, both order
+    switches (part1, part2) agree and select a table of that order; counts are consistent -/
+theorem c10_tables_complete :
+    RV.Gen.C10.orderSwitch1 = RV.Gen.C10.orderSwitch2 ∧
+    RV.Gen.C10.nSwitches = 2 ∧
+    RV.Gen.C10.tables.length = RV.Gen.C10.nTables ∧
+    RV.Gen.C10.nGammaEntries = RV.Gen.C10.gammaLen * RV.Gen.C10.nTables ∧
+    RV.Gen.C10.nGgVals = (RV.Gen.C10.tables.map (·.stages)).sum ∧
+    (∀ o ∈ [2, 4, 6, 8, 10], ∃ t ∈ RV.Gen.C10.tables,
+      RV.Gen.C10.orderSwitch1.1.lookup o = some t.name ∧ t.order = o) ∧
+    (∀ c ∈ RV.Gen.C10.orderSwitch1.1, ∃ t ∈ RV.Gen.C10.tables, t.name = c.2 ∧ t.order = c.1) := by
+  decide +kernel
+
+/-! ### the hypotheses are satisfiable: fixed-point numbers as "doubles", rounding toward zero -/
+
+example : @JLaws Int intJFloat := intLaws
+
+/-- a concrete non-trivial run: the order-4 table read as fixed-point numbers, harmonic force,
+    two particles, dt = 0.1, scales 1 and 0.5; the forward leg is defined, moves the state, and
+    the backward leg returns it -/
+example :
+    let _ := intJFloat
+    let cfg : Cfg Int := ⟨1000, 500, fun pos => pos.map (fun p => ⟨-p.x, -p.y, -p.z⟩)⟩
+    let s : Scheme Int := schemeOf (fun q => (q.1 * 1000).tdiv q.2) 4 5 RV.Gen.C10.s5odr4.gammaQ
+    let st : List PInt := [⟨100000, 0, 700, 0, 30000, 0⟩, ⟨-50000, 2000, 0, 0, -11000, 3000⟩]
+    (∃ st', steps cfg s 100 3 st = some st' ∧ st' ≠ st ∧ steps cfg s (-100) 3 st' = some st) := by
+  decide +kernel
+
+variable {K : Type} [Field K]
+
+/-! ### symmetric schemes, exact arithmetic -/
+
+/-- LEAPFROG (integrator_leapfrog.c, drift–kick–drift in the C operation order): n steps with
+    `dt` then n steps with `-dt` is the identity; ∀ N, ∀ force depending on positions only -/
+theorem c10_leapfrog_steps_reverse (acc : List (V3 K) → List (V3 K)) (dt : K) (n : Nat)
+    (s s' : List (LfP K)) (h : lfSteps acc dt n s = some s') : lfSteps acc (-dt) n s' = some s :=
+  lfSteps_reverse acc dt n s s' h
+
+/-- SEI `operator_H012` is undone exactly by itself with `-dt` and the constants
+    `reb_integrator_sei_init` computes for `-dt` -/
+theorem c10_sei_H012_reverse (dt : K) (c : SeiC K) (h2 : (2 : K) ≠ 0) (ho : c.omega ≠ 0)
+    (hz : c.omegaZ ≠ 0) (p : LfP K) : seiH012 (-dt) c.rev (seiH012 dt c p) = p :=
+  seiH012_back dt c h2 ho hz p
+
+/-- SEI step (H012 – phi1 – H012) with the constants of `reb_integrator_sei_init`, `sin` and
+    `tan` any odd functions: `step(-dt) ∘ step(dt) = id`; ∀ N, ∀ position-dependent force -/
+theorem c10_sei_step_reverse (sn tn : K → K) (hs : ∀ a, sn (-a) = -sn a) (ht : ∀ a, tn (-a) = -tn a)
+    (acc : List (V3 K) → List (V3 K)) (omega omegaZ dt : K) (h2 : (2 : K) ≠ 0) (ho : omega ≠ 0)
+    (hz : omegaZ ≠ 0) (s s' : List (LfP K))
+    (h : seiStep acc dt (seiInit sn tn omega omegaZ dt) s = some s') :
+    seiStep acc (-dt) (seiInit sn tn omega omegaZ (-dt)) s' = some s := by
+  rw [seiInit_neg sn tn hs ht]
+  exact seiStep_reverse acc dt _ h2 ho hz s s' h
+
+/-- any palindromic composition of two flows that are each undone by the negated coefficient
+    (WHFast without correctors, SABA, EOS: Kepler/drift flow and interaction/kick flow) is
+    reversed by negating every coefficient, i.e. by `dt → -dt` -/
+theorem c10_palindromic_splitting_reverse {S C : Type} (A B : C → S → S) (ng : C → C)
+    (hA : ∀ c s, A (ng c) (A c s) = s) (hB : ∀ c s, B (ng c) (B c s) = s)
+    (l : List (Bool × C)) (hpal : l.reverse = l) (s : S) :
+    splitRun A B (l.map (fun p => (p.1, ng p.2))) (splitRun A B l s) = s := by
+  have := splitRun_inv_reverse A B ng hA hB l s
+  rwa [← List.map_reverse, hpal] at this
+
+/-- the hypotheses are satisfiable: leapfrog's own drift and kick on ℚ-like fields are such flows;
+    here the smallest instance, translations of a field -/
+example (c s : K) : (fun (a : K) (x : K) => x + a) (-c) ((fun (a : K) (x : K) => x + a) c s) = s := by
+  ring
+
+end RV.C10
